@@ -1,4 +1,6 @@
 SPECIFICATION Spec
 CONSTANT ByRef = TRUE
+CONSTANT Rounds = 1
+CONSTANT ResetOnStart = TRUE
 INVARIANTS InvokedLive Once FinishedOnlyAfter JoinAfterFinish NoDeadlock
 CHECK_DEADLOCK FALSE
